@@ -404,6 +404,8 @@ def viewsim_universe(t, shape, config, flags):
     mapparent = 'VIEWSIM_MAP_PARENT' in flags      # destination is a TensorMap: C05 kinds only (noalias() on views of maps does not compile)
     if R <= 2 and not mapparent and 'VECTORISED_EXPR_ASSIGN' not in flags:
         ops += [(f'bool_write<{uname}>', 'bool_write', 'K_BOOL_WRITE', 'P_C05')]
+    if R >= 2:
+        ops += [(f'flat_write<{uname}>', 'flat_write', 'K_FLAT_WRITE', 'P_C05')]
     if R == 3 and mapparent:
         ops += [(f'dyn_alias<{uname}>', 'dyn_alias', 'K_DYN_ALIAS', 'P_C18')]
     if R <= 3 and not mapparent:
